@@ -11,7 +11,7 @@ from . import httplib as H
 OCAML = H.OCAML
 GO = H.GO
 PROP = "props/C19.v"
-PROOFS = H.PROTO_PROOFS + ["proofs/CompositeCfgProofs.v", "model/CompositeCfg.v"] + H.MODEL_FILES
+PROOFS = H.PROTO_PROOFS + ["proofs/HttpCtor.v", "proofs/CompositeCfgProofs.v", "model/CompositeCfg.v"] + H.MODEL_FILES
 HOW = "build/bin/http -family crash -case <file with the case JSON> | build/bin/http_model"
 
 
@@ -20,6 +20,15 @@ def describe(c):
     extra = ""
     if c.get("prefix") is not None:
         extra = " wildcard-prefix=%r request-paths=%r" % (c.get("prefix")[:40], [p[:30] for p in (c.get("paths") or [])])
+    if c.get("build"):
+        steps = []
+        for i, st in enumerate(c["build"]):
+            opts = ",".join(o["k"] + (("#%d" % o.get("ref", 0)) if o["k"] == "copy" else
+                                      ("=%d" % o.get("v", 0)) if o["k"] in ("drain", "read", "write", "idle") else "")
+                            for o in st.get("opts") or [])
+            steps.append("p%d=NewConfig(%s, [%s]%s)" % (i, st.get("addr"), ", ".join(
+                "%s -> %s" % (r["name"][:20], r["path"][:40]) for r in st.get("routes") or []), (", " + opts) if opts else ""))
+        extra += " chain: " + "; ".join(steps) + ((" via=" + c["via"]) if c.get("via") else "")
     return "kind=%s where=%s addr=%s routes=[%s]%s" % (c.get("kind"), c.get("where"), str(c.get("addr"))[:40], rs, extra)
 
 
@@ -80,6 +89,12 @@ def run(run):
         elif kind in ("hang", "none"):
             run.violation("hang:%s:%s" % (d.get("case", {}).get("kind"), ck), payload,
                           "an accepted value leads to neither normal operation nor an error (no outcome within 40 s): %s" % describe(d.get("case", {})))
+        elif kind == "newconfig":
+            cls = [x for x in t if x.startswith("class=")][0][6:]
+            run.violation("corr-newconfig:" + cls, dict(payload, theorem="correspondence A (model new_config vs NewConfig: "
+                                                        "C19_constructor_validates / C19_constructor_accepts_by_routes_only)"),
+                          "NewConfig's result differs from the model's for a construction step (options in order, copies of "
+                          "earlier products): %s :: %s" % (l, describe(d.get("case", {}))), True)
         elif kind == "crash-missing":
             cls = [x for x in t if x.startswith("class=")][0][6:]
             run.violation("corr-crash-missing:" + cls, dict(payload, theorem="C19_http_refuted replayed on the implementation"),
@@ -104,7 +119,10 @@ def run(run):
         "rule": "grammar of constructor/option arguments (route patterns: wildcards, {$}, method- and host-qualified, unbalanced "
                 "braces, duplicate wildcard names, empty segments, unicode, NUL, 64 KiB; duplicate and conflicting route lists; "
                 "listen addresses; zero/negative/huge timeouts; header maps with invalid keys/values; wildcard prefixes; composite "
-                "configurations with nil/empty entry lists) + PRNG-generated route lists, each delivered at construction and at "
+                "configurations with nil/empty entry lists; CONSTRUCTION CHAINS: every With* option in any order, WithConfigCopy "
+                "of an earlier product combined with other routes / addresses / timeouts, copies of copies, nil arguments, the "
+                "product handed over through WithConfig or a callback, every product also compared field by field with the "
+                "model's new_config) + PRNG-generated route lists and construction chains, each delivered at construction and at "
                 "reload time, each in its own child process; distinct = distinct case descriptions (%d), non-trivial = accepted by "
                 "the constructors" % len(distinct),
         "samples": samples,
@@ -112,6 +130,9 @@ def run(run):
         "exhaustive": False,
         "input_distribution": {"by_kind": kinds, "by_outcome": outcomes, "oracle_panics_observed_as_crash": stats.get("cr_findings", 0)},
         "model_validated_flag": stats.get("validated", 0),
+        "newconfig_steps_compared_with_model": stats.get("nc", 0),
+        "newconfig_steps_with_a_copy": stats.get("nc_copies", 0),
+        "newconfig_steps_rejected": stats.get("nc_rejected", 0),
     })
     run.assumptions += ["ServeMux.Handle is a deterministic function of the sequence of patterns registered on a fresh mux",
                         "the model cannot exhibit panics inside net/http, user handlers or middlewares other than through the mux oracle; "
